@@ -85,6 +85,9 @@ type subState struct {
 	earlyCancel  bool // cancel was issued before Subscribe returned
 	msgs         []got
 	snap         int // len(msgs) at snapshot time
+	// logical clock stamps (w.seq, under w.mu): Subscribe call started / returned, subscription ended
+	// (terminal received or cancel issued, whichever came first); 0 = not yet
+	startSeq, returnSeq, endSeq int
 
 	// upstream side
 	seen      int      // subscribe messages / sse requests seen for this subscription
@@ -135,6 +138,7 @@ type world struct {
 	streams  []*upStream
 	subs     []*subState
 	upViol   []string // protocol-level observations at the upstream that are violations by themselves
+	seq      int        // logical clock for subscriber-side events
 	log      []logEntry // upstream-side event order (coverage classes only, never an oracle input)
 	wg       sync.WaitGroup
 	pongSilent map[int]bool
@@ -735,6 +739,10 @@ func (w *world) handler(i int) common.Handler {
 		}
 		w.mu.Lock()
 		st.msgs = append(st.msgs, g)
+		if g.Type.IsTerminal() && st.endSeq == 0 {
+			w.seq++
+			st.endSeq = w.seq
+		}
 		w.bump()
 		w.mu.Unlock()
 	}
@@ -747,12 +755,16 @@ func (w *world) start(i int) {
 	opts := t.options(w.srv.URL)
 	w.mu.Lock()
 	st.started = true
+	w.seq++
+	st.startSeq = w.seq
 	w.mu.Unlock()
 	w.wg.Add(1)
 	go func() {
 		defer w.wg.Done()
 		unsub, err := w.cl.Subscribe(st.ctx, request(i), opts, w.handler(i))
 		w.mu.Lock()
+		w.seq++
+		st.returnSeq = w.seq
 		st.returned, st.err, st.unsub = true, err, unsub
 		mine := err == nil && st.ctx.Err() != nil // cancelled while subscribing: the caller's AfterFunc fires at once
 		w.bump()
@@ -780,6 +792,10 @@ func (w *world) cancelSub(i int, byCase bool) {
 	if st.ctx.Err() != nil {
 		w.mu.Unlock()
 		return
+	}
+	if st.endSeq == 0 {
+		w.seq++
+		st.endSeq = w.seq
 	}
 	if byCase {
 		st.cancelIssued = true
